@@ -127,7 +127,7 @@ func checkOrd(c ordCase, r *h.Rec) error {
 func TestC05_OrdArithmetic(t *testing.T) {
 	n := ref.SM2N
 	h.Prop(t, h.P{Name: "ord-arithmetic", Quick: 60000, Thorough: 1500000, Journal: true}, func(t *rapid.T) ordCase {
-		kind := rapid.SampledFrom([]string{"uniform", "structured", "structured", "structured", "inverse pair", "sum wraps", "odd length", "powers"}).Draw(t, "kind")
+		kind := rapid.SampledFrom([]string{"uniform", "structured", "structured", "structured", "inverse pair", "sum wraps", "odd length", "powers", "montgomery-structured", "montgomery-structured"}).Draw(t, "kind")
 		f32 := func(v *big.Int) []byte { return new(big.Int).Mod(v, pow256).FillBytes(make([]byte, 32)) }
 		switch kind {
 		case "uniform":
@@ -136,6 +136,16 @@ func TestC05_OrdArithmetic(t *testing.T) {
 				return f32(v.Mod(v, n))
 			}
 			return ordCase{u("a"), u("b"), u("s"), kind}
+		case "montgomery-structured":
+			// operands whose Montgomery form (a*2^256 mod n) is a limb pattern
+			ms := func(l string) []byte {
+				s := drawStructured256(t, l)
+				if rapid.IntRange(0, 3).Draw(t, l+"raw") == 0 {
+					return f32(s)
+				}
+				return f32(montStructured(s, n))
+			}
+			return ordCase{ms("a"), ms("b"), ms("s"), kind}
 		case "inverse pair":
 			// b = a^-1 (product 1), s = n-1 (sum 0)
 			a, _ := drawScalarValue(t, "a")
@@ -322,9 +332,9 @@ func checkNat(c natCase, r *h.Rec) error {
 		r.Label("operand 0 / 1 / m-1 / a=b")
 		r.NT()
 	}
-	// Mod of a double-width value: a*b (unreduced product of the raw inputs, up to 80 bytes)
+	// Mod of a double-width value: a*b (unreduced product of the raw inputs, up to 150 bytes)
 	wide := new(big.Int).Mul(a, b)
-	m2, err := verifhook.NewModulusProduct(pw(8 * 41).Bytes(), pw(8 * 41).Bytes())
+	m2, err := verifhook.NewModulusProduct(pw(8 * 80).Bytes(), pw(8 * 80).Bytes())
 	if err != nil {
 		return fmt.Errorf("NewModulusProduct: %v", err)
 	}
